@@ -121,7 +121,7 @@ def rules(repo, tier):
     from ..docsig import rule_docsig
     from ..axisdefault import rule_axisdefault
     from ..effects import rule_pure
-    return list(_rules_core(repo, tier)) + [rule_pure(repo, 'C01.PURE', 'Exp and its coefficient helpers write neither into their argument nor into tensors that '
+    return [__import__('sa.rules.c06', fromlist=['x']).rule_postcheck(repo, tier, 'C01.POSTCHK')] + list(_rules_core(repo, tier)) + [rule_pure(repo, 'C01.PURE', 'Exp and its coefficient helpers write neither into their argument nor into tensors that '
                                                       'outlive the call (cached limits / constants filled in place): the value for one input never leaks into a later call',
                                                       EXP_TARGETS + [(OP, 'se3_Exp.forward'), (OP, 'sim3_Exp.forward'), (OP, 'rxso3_Exp.forward')]), rule_memo(repo, 'C01.MEMO', 'history independence: nothing computed from the contents of a tensor argument is kept '
                                                       'under the identity, address or version of that tensor, in module-level storage, or published from a generator '
